@@ -102,3 +102,26 @@ Proof.
   - intros (m & Hm). eapply compile_ok_static; eauto.
   - intros Hs. destruct (compile_accepts S Hs Hwf) as (chains & st & m & _ & Hm & _). eauto.
 Qed.
+
+(* ---- building a checker from a compiled schema -------------------------------------------------------------------------------- *)
+From NDN Require Import Proofs.LvsFlatten Proofs.LvsCompileThms Proofs.LvsSanity Proofs.LvsSignGraph.
+
+Lemma compiled_ids_ok S chains st m : chains_of S = Ok (chains, st) -> compile S = Ok m -> ids_ok m.
+Proof.
+  intros Hc Hm. destruct (compile_unfold _ _ _ _ Hc Hm) as (t0 & _ & Hmodel).
+  destruct (compiled_mirrors st m t0 Hmodel) as [Hl Hall]. intros i nd Hg.
+  unfold get_node in Hg. destruct (N.ltb_spec i (N.of_nat (length (m_nodes m)))) as [Hlt|]; [|discriminate].
+  destruct (nth_error (fst (flatten t0 None 0 (N.of_nat (length (ns_named st))))) (N.to_nat i)) as [g|] eqn:Eg.
+  - destruct (Hall _ _ Eg) as (nd' & Hnd' & Hid & _). rewrite Hg in Hnd'. inversion Hnd'; subst nd'. rewrite Hid, N2Nat.id. reflexivity.
+  - apply nth_error_None in Eg. lia.
+Qed.
+
+(* Checker(compile S): accepted iff no name pattern (node) is, directly or transitively, its own signer; else the schema error *)
+Theorem checker_verdict S m : static_ok S = true -> schema_wf S = true -> compile S = Ok m ->
+  ((exists r, sanity_check (sanity_fuel m) m = Ok r) <-> sign_acyclic m) /\
+  (forall e, sanity_check (sanity_fuel m) m = Err e -> e = ESemantic).
+Proof.
+  intros Hs Hwf Hm. destruct (compile_accepts S Hs Hwf) as (chains & st & m' & Hc & Hm' & Hok).
+  rewrite Hm in Hm'. inversion Hm'; subst m'.
+  apply loader_verdict; [exact (compile_sane (fun _ => None) S chains st m Hc Hm Hok) | eapply compiled_ids_ok; eauto].
+Qed.
